@@ -23,7 +23,9 @@ class CaseTimeout(BaseException):
 
 def case_rng(seed, check_id, gen, idx):
     h = hashlib.sha256(('%s|%s|%s|%s' % (seed, check_id, gen, idx)).encode()).digest()
-    return random.Random(int.from_bytes(h[:8], 'big'))
+    rng = random.Random(int.from_bytes(h[:8], 'big'))
+    rng.rv_seed = seed
+    return rng
 
 
 def short_hash(obj):
